@@ -220,3 +220,54 @@ func ValidStateHRP(t *rapid.T) (s, hrp string, syms []byte) {
 	syms = ref.ToSymbols(rapid.SliceOfN(rapid.Byte(), nb, nb).Draw(t, "sdata"))
 	return ref.EncodeSymbols(hrp, syms), hrp, syms
 }
+
+// nonASCIIRunes: code points whose low byte is a printable ASCII character (an implementation that
+// truncates runes to bytes before the range check sees 'a', '1', 'B', ...), case-folding traps, and a
+// few others; all valid UTF-8.
+var nonASCIIRunes = []string{"\u0161", "\u0142", "\u4e61", "\u0131", "\u0141", "\u0231", "\u212a", "\u017f", "\u0130", "\u00e9", "\u00df", "\uff41", "\U0001f600", "\u0100", "\u017e", "\u2131"}
+
+// NonASCIIPrefix draws a string that would be valid Bech32 if its human-readable part, which contains
+// one or two non-ASCII runes, were allowed: the checksum is correct for the prefix's UTF-8 bytes, or
+// for the prefix with every rune truncated to its low byte. It is not valid Bech32.
+func NonASCIIPrefix(t *rapid.T) string {
+	n := rapid.IntRange(0, 6).Draw(t, "nal")
+	parts := []string{}
+	for i := 0; i < n; i++ {
+		parts = append(parts, string(rune(rapid.IntRange('a', 'z').Draw(t, "nac"))))
+	}
+	k := rapid.IntRange(1, 2).Draw(t, "nak")
+	for i := 0; i < k; i++ {
+		pos := rapid.IntRange(0, len(parts)).Draw(t, "nap")
+		r := nonASCIIRunes[rapid.IntRange(0, len(nonASCIIRunes)-1).Draw(t, "nar")]
+		parts = append(parts[:pos], append([]string{r}, parts[pos:]...)...)
+	}
+	hrp := strings.Join(parts, "")
+	nb := rapid.IntRange(0, 20).Draw(t, "nab")
+	syms := ref.ToSymbols(rapid.SliceOfN(rapid.Byte(), nb, nb).Draw(t, "nad"))
+	if rapid.Bool().Draw(t, "natrunc") {
+		// checksum as computed by an implementation that works on rune values truncated to bytes
+		tr := make([]byte, 0, len(hrp))
+		for _, r := range hrp {
+			tr = append(tr, byte(r))
+		}
+		all := append(append([]byte{}, syms...), ref.Checksum(ref.AsciiLower(string(tr)), syms)...)
+		out := []byte(hrp + "1")
+		for _, v := range all {
+			out = append(out, ref.Charset[v])
+		}
+		return string(out)
+	}
+	return ref.EncodeSymbols(hrp, syms)
+}
+
+// SplitCase returns s with the human-readable part (the first hrpLen bytes) in one case and the rest in
+// the other: each part is single-case, the string as a whole is not.
+func SplitCase(s string, hrpLen int, upperPrefix bool) string {
+	if hrpLen > len(s) {
+		hrpLen = len(s)
+	}
+	if upperPrefix {
+		return ref.AsciiUpper(s[:hrpLen]) + ref.AsciiLower(s[hrpLen:])
+	}
+	return ref.AsciiLower(s[:hrpLen]) + ref.AsciiUpper(s[hrpLen:])
+}
